@@ -939,10 +939,13 @@ func modhex(r *ev.Run, pool [][]byte) {
 			{{Id: oid(1, 3, 6, 1, 4, 1, 41482, 3, 7, 7, 7), Value: derInt([]byte{9, 9, 9})}}, {{Id: oid(1, 3, 6, 1, 4, 1, 41482, 4, 7), Value: derInt([]byte{1, 2, 3, 4})}}, {{Id: oid(2, 3, 6, 1, 4, 1, 41482, 3, 7), Value: derInt([]byte{1, 2, 3, 4})}}} {
 			r.Eval(1)
 			r.Guard(c, "ModHex(missing)", nil, func() {
-				if s, err := yubiattest.ModHex(&x509.Certificate{Extensions: exts}); err == nil {
-					r.Violation(c, "modhex-without-serial-extension", s, nil)
-				} else {
-					r.Count("missing serial extension -> error", 1)
+				// (the certificate's own X.509 serial number is not the device serial, whatever its size)
+				for _, sn := range []*big.Int{nil, big.NewInt(0x01abcdef), big.NewInt(0x010203), big.NewInt(0xffffffff), big.NewInt(7), new(big.Int).Lsh(big.NewInt(1), 120)} {
+					if s, err := yubiattest.ModHex(&x509.Certificate{Extensions: exts, SerialNumber: sn}); err == nil {
+						r.Violation(c, "modhex-without-serial-extension", fmt.Sprintf("%q (certificate serial number %v)", s, sn), nil)
+					} else {
+						r.Count("missing serial extension -> error", 1)
+					}
 				}
 			})
 		}
